@@ -72,13 +72,26 @@ def run(facts, R):
             R.check(ok, "handler-once", rv.path, "Dispatch arm -> dispatch_view(handler, view, ctx, notify)", "Dispatch row is %s" % v[:200], rv.span, v[:160])
         elif any(x.endswith("is Reject") for x in g):
             n_r += 1
-            raw = [vv for gg, vv in value_rows(rv, rs, facts, 0, fmt=lambda z: z) if any(x.endswith("is Reject") for x in gg)]
-            ok = bool(raw) and is_call(raw[0], "then") and raw[0][2][0][0] == "un" and raw[0][2][0][1] == "Not" and render(raw[0][2][0][2]).endswith("as Reject).notify")
-            R.check(ok, "response-count", rv.path, "Reject arm answers iff !notify", "Reject row is %s" % v[:200], rv.span, "(!notify).then(error response)")
             R.check("dispatch" not in v, "handler-once", rv.path, "Reject arm runs no handler", "Reject row dispatches: %s" % v[:160], rv.span)
         else:
             R.bad("handler-once", rv.path, "unguarded row", "route_request_view produces %s outside the two route outcomes" % v[:120], rv.span)
-    R.check(n_d == 1 and n_r == 1, "handler-once", rv.path, "two rows", "rows: dispatch=%d reject=%d" % (n_d, n_r), rv.span)
+    # Reject answers iff !notify: either one row `(!notify).then(|| error)` or a None row under notify and a Some(error) row under !notify
+    rej = [(g, v) for g, v in rows if any(x.endswith("is Reject") for x in g)]
+    raw = [vv for gg, vv in value_rows(rv, rs, facts, 0, fmt=lambda z: z) if any(x.endswith("is Reject") for x in gg)]
+    ok_then = len(raw) == 1 and is_call(raw[0], "then") and raw[0][2][0][0] == "un" and raw[0][2][0][1] == "Not" and render(raw[0][2][0][2]).endswith("as Reject).notify")
+    ok_rows = len(rej) >= 2
+    for g, v in rej:
+        on_notify = any("as Reject).notify is True" in x for x in g)
+        off_notify = any("as Reject).notify is False" in x for x in g)
+        if on_notify and not off_notify:
+            ok_rows = ok_rows and v == "Option::None{}"
+        elif off_notify and not on_notify:
+            ok_rows = ok_rows and v.startswith("Option::Some{0: message::create_error_response") and "as Reject).code" in v
+        else:
+            ok_rows = False
+    R.check(ok_then or ok_rows, "response-count", rv.path, "Reject arm answers iff !notify", "Reject rows are %s" % [(g[:1], v[:80]) for g, v in rej], rv.span,
+            "(!notify).then(error response)" if ok_then else "notify -> None, !notify -> Some(error response)")
+    R.check(n_d == 1 and n_r >= 1, "handler-once", rv.path, "two rows", "rows: dispatch=%d reject=%d" % (n_d, n_r), rv.span)
     # the closure builds the error from the Reject payload and the view
     for c in facts.children(rv.path):
         cv = Sym(c).local(0)
